@@ -421,7 +421,7 @@ impl Engine for HelpSim {
         Meta {
             engine: "cmdsim/helpsim",
             level: "exploration",
-            rule: "a scenario is a command tree (depth <= 3, help-heavy swarm: short-only/long-only flags, counts, positionals, custom headings, next-line help, hidden items of every kind, possible values, multi-line/wide/zero-width text, flatten_help, custom templates) plus a history of 1-12 events on ONE long-lived Command: Resize (COLUMNS/LINES of the worker process set to 0..=200, huge, garbage, non-UTF-8 or unset), Render short/long/usage at any subcommand level, ParseHelp (-h/--help/help <path> at any level), WriteHelp through a fault-injecting sink, ordinary parses and build(). Non-trivial = >= 2 events or >= 1 ambient/sink fault fired, with >= 1 text checked; distinct = distinct scenario hash",
+            rule: "a scenario is a command tree (depth <= 3, help-heavy swarm: short-only/long-only flags, counts, positionals, custom headings, next-line help, hidden items of every kind, possible values, multi-line/wide/zero-width text, flatten_help, custom templates) plus a history of 1-12 events on ONE long-lived Command: Resize (COLUMNS/LINES of the worker process set to 0..=200, huge, garbage, non-UTF-8 or unset), Render short/long/usage at any subcommand level, ParseHelp (-h/--help/help <path> at any level), WriteHelp through a fault-injecting sink, ordinary parses and build(). Non-trivial = >= 2 events or >= 1 ambient/sink fault fired, with >= 1 text checked; distinct = distinct scenario hash. Added during the build phase: AddSub (a subcommand added after build), ignore_errors trees, required options, non-UTF-8 defaults, multi-byte possible values, shared display orders, arguments hidden from both help modes",
             real_components: &["clap_builder::output::help_template", "clap_builder::output::usage", "clap_builder::output::textwrap", "Command::render_help/render_long_help/render_usage/write_help", "Parser help dispatch", "the process environment variables COLUMNS/LINES (terminal_size() sees no tty: worker stdio is piped)"],
             stub_components: &["FaultyWriter (io::Write sink driven by a fault plan)", "the simulated terminal is the COLUMNS/LINES pair"],
             workload_only_clauses: &["which mix of argument shapes shares a section is configuration; the simulator adds the width timeline, the sink and the history"],
